@@ -142,7 +142,7 @@ def form_function(ch, u):
     psrc, params, vararg = params_variant(ch)
     if params is None:
         params = [Parameter(Pointer(FunctionType(T_int(), [Parameter(T_int(), None)])), "cb"), Parameter(Array(T_int(), None), "arr")]
-    tail = ch.pick(7)
+    tail = ch.pick(9)
     tmpl = ch.pick(4)
     name = f"f{u}"
     kw = {}
@@ -161,6 +161,10 @@ def form_function(ch, u):
         tails, kw["has_body"] = " { return x; }", True
     elif tail == 6:
         tails, kw["deleted"] = " = delete", True
+    elif tail == 7:  # exception specification and trailing return type together
+        rsrc, tails, kw["has_trailing_return"], kw["noexcept"] = "auto", " noexcept -> " + tsrc, True, val()
+    elif tail == 8:
+        rsrc, tails, kw["has_trailing_return"], kw["throw"] = "auto", " throw() -> " + tsrc, True, val()
     template = None
     tsrc_ = ""
     if tmpl == 1:
